@@ -1,8 +1,8 @@
 (* C17 - Axis-wise selection and missing-value handling keep slices with their labels. *)
 From Coq Require Import Qround Qabs Permutation.
 From DA Require Import Prelude NDArray Array PyRT.
-From DA.Model Require Import Value Reshape SliceSpec Indexing Align Transform.
-From DA.Proofs Require Import C10_proofs C01_proofs C03_proofs C07_proofs C17_proofs.
+From DA.Model Require Import Value Reshape SliceSpec Indexing Align Transform Flatten Ops.
+From DA.Proofs Require Import C10_proofs C01_proofs C03_proofs C07_proofs C17_proofs C17_key.
 Open Scope nat_scope.
 Open Scope list_scope.
 
@@ -17,6 +17,17 @@ Theorem C17_sort_axis : forall r a res,
     Permutation order (seq 0 (List.length labs)) /\ sorted_by labs order.
 Proof. exact sort_axis_spec. Qed.
 Print Assumptions C17_sort_axis.
+
+(* sort_axis(axis, key=f): the same take, ordered by the keys f(label) instead of the labels: the order is a
+   permutation of the positions that puts the KEYS in ascending order (stable insertion order for ties) *)
+Theorem C17_sort_axis_by_key : forall r keys a v,
+  apply_op [] (OSortAxisKey r keys) a = Ok v ->
+  exists i, axis_info a r = Ok i /\ List.length keys = alen (nth i (axes a) dax0) /\
+    let order := argsort keys in
+    v = VArr (take_axis_pos order i a) /\
+    Permutation order (seq 0 (List.length keys)) /\ sorted_by keys order.
+Proof. exact sort_axis_by_key_spec. Qed.
+Print Assumptions C17_sort_axis_by_key.
 
 (* selecting whole slices by position (repeats allowed): the axis carries the labels of the selected
    positions in the requested order (name and axis metadata kept), every selected slice is the
